@@ -126,7 +126,7 @@ def restrNs (self other : Wc) : Bool :=
 /-- `XsdWildcard.is_restriction` for two wildcards of the same class, occurrence check
     excluded (it lives in particles.py and is modelled in C14).  The Python function returns
     `False` at the first failing clause; without side effects that is the conjunction. -/
-def isRestriction (self other : Wc) (pcSelf pcOther : PC) : Bool :=
+def isRestrictionCore (self other : Wc) (pcSelf pcOther : PC) : Bool :=
   restrPC pcSelf pcOther && restrQ self other && restrNs self other
 
 /-- The `not_qname` part of `union` (wildcards.py:272-278). -/
@@ -178,7 +178,7 @@ def unionNs (v11 : Bool) (self other : Wc) : Option Wc :=
   else unionPP v11 self other
 
 /-- `XsdWildcard.union` (wildcards.py:270-337). -/
-def union (v11 : Bool) (self other : Wc) : Option Wc :=
+def unionCore (v11 : Bool) (self other : Wc) : Option Wc :=
   unionNs v11 (unionNotQ self other) other
 
 /-- The `not_qname` part of `intersection` (wildcards.py:341-344). -/
@@ -221,10 +221,10 @@ def interNs (self other : Wc) : Wc :=
   else { self with ns := .set (self.ns.elems.filter fun x => x != other.tns && x != "") }
 
 /-- `XsdWildcard.intersection` (wildcards.py:339-388). -/
-def intersection (self other : Wc) : Wc := interNs (interNotQ self other) other
+def intersectionCore (self other : Wc) : Wc := interNs (interNotQ self other) other
 
 /-- `XsdAnyElement.is_overlap` for two wildcards (wildcards.py:585-618). -/
-def isOverlap (self other : Wc) : Bool :=
+def isOverlapCore (self other : Wc) : Bool :=
   if !self.notNs.isEmpty then
     if !other.notNs.isEmpty then true
     else if other.ns.isAny then true
@@ -240,5 +240,43 @@ def isOverlap (self other : Wc) : Bool :=
   else if self.ns.isOther then other.ns.elems.any fun n => n != "" && n != self.tns
   else if other.ns.isOther then self.ns.elems.any fun n => n != "" && n != other.tns
   else other.ns.elems.any (mem · self.ns.elems)
+
+/-! ### wildcards of different target namespaces (fix: `_absolute_other`, wildcards.py)
+
+`##other` is relative to the wildcard's own target namespace.  Since the fix the binary operations,
+when the two target namespaces differ, first replace `##other` by the absolute form
+`not(absent, targetNamespace)` (a copy of `other`; `self` is rewritten in place by `union` /
+`intersection`), after which no branch depends on a target namespace any more. -/
+
+/-- `XsdWildcard._absolute_other` -/
+def absOther (w : Wc) : Wc :=
+  -- the code tests only `'##other' in self.namespace`; whenever `not_namespace` is set the
+  -- `namespace` set is empty (every assignment clears it), so the extra test changes nothing
+  -- on reachable objects and makes the function total for the theorems
+  if w.ns.isOther && w.notNs.isEmpty then { w with ns := .set [], notNs := ["", w.tns] } else w
+
+/-- the operands as the operation sees them -/
+def normPair (a b : Wc) : Wc × Wc :=
+  if a.tns == b.tns then (a, b) else (absOther a, absOther b)
+
+/-- `XsdWildcard.union` (with the cross-namespace normalisation) -/
+def union (v11 : Bool) (self other : Wc) : Option Wc :=
+  let (a, b) := normPair self other
+  unionCore v11 a b
+
+/-- `XsdWildcard.intersection` -/
+def intersection (self other : Wc) : Wc :=
+  let (a, b) := normPair self other
+  intersectionCore a b
+
+/-- `XsdWildcard.is_restriction` (namespace, notQName and processContents clauses) -/
+def isRestriction (self other : Wc) (pcSelf pcOther : PC) : Bool :=
+  let (a, b) := normPair self other
+  isRestrictionCore a b pcSelf pcOther
+
+/-- `XsdAnyElement.is_overlap` -/
+def isOverlap (self other : Wc) : Bool :=
+  let (a, b) := normPair self other
+  isOverlapCore a b
 
 end XsVerif.Wildcard
